@@ -53,10 +53,11 @@ func TaskExecutor.Cancel
 -- the wrapper of one scheduled task: runs the callback, then (under the mutex) its element is finished
 func TaskExecutor.ExecuteAt$1
   instantiate T: string
-  requires t != nil && *t != nil && identifier != nil && callback != nil && *callback != nil && unlocked((*t).queuedElementsMutex)
+  requires t != nil && *t != nil && identifier != nil && callback != nil && *callback != nil && scheduledTask != nil && unlocked((*t).queuedElementsMutex)
   callback callback()
   modifies everything
-  ghost at entry: choose cur with sel(idOf, cur) == *identifier
+  -- its own element: the variable is assigned under the mutex by ExecuteAt before the wrapper can take the mutex
+  ghost after acquire: cur = *scheduledTask
   ghost after acquire: live = upd(live, cur, false)
   ensures unlocked((*t).queuedElementsMutex)
 @*/
